@@ -1563,6 +1563,11 @@ pub fn surface_pairs(ctx: &mut CheckCtx, prop: &str, pairs: &mut Vec<crate::tyen
 			if prop != "C14" && prop != "C02" && prop != "C01" {
 				pairs.extend(crate::surface::families_surface(prop, &ms));
 			}
+			if prop == "C15" {
+				let (kp, seen) = crate::surface::families_surface_keyless_data(prop, &doc);
+				ctx.extra.insert("api_surface_keyless_data".into(), json!({"functions_seen": seen, "pairs_generated": kp.len(), "names": kp.iter().map(|p| p.name.clone()).collect::<Vec<_>>()}));
+				pairs.extend(kp);
+			}
 			if matches!(prop, "C14" | "C02" | "C01") {
 				let (shape_pairs, seen) = crate::surface::families_surface_shapes(prop, &doc);
 				ctx.extra.insert("api_surface_shapes".into(), json!({"functions_seen": seen, "pairs_generated": shape_pairs.len(), "names": shape_pairs.iter().map(|p| p.name.clone()).collect::<Vec<_>>()}));
